@@ -630,7 +630,7 @@ def isdatetype(
         >>> isdatetype(NewType("Foo", datetime.datetime))
         True
     """
-    return builtins.issubclass(origin(obj), datetime.date)
+    return _safe_issubclass(origin(obj), datetime.date)
 
 
 @compat.cache
@@ -649,7 +649,7 @@ def isdatetimetype(
         >>> isdatetype(NewType("Foo", datetime.datetime))
         True
     """
-    return builtins.issubclass(origin(obj), datetime.datetime)
+    return _safe_issubclass(origin(obj), datetime.datetime)
 
 
 @compat.cache
@@ -664,7 +664,7 @@ def istimetype(obj: type) -> compat.TypeIs[type[datetime.time]]:
         >>> istimetype(NewType("Foo", datetime.time))
         True
     """
-    return builtins.issubclass(origin(obj), datetime.time)
+    return _safe_issubclass(origin(obj), datetime.time)
 
 
 @compat.cache
@@ -679,7 +679,7 @@ def istimedeltatype(obj: type) -> compat.TypeIs[type[datetime.timedelta]]:
         >>> istimedeltatype(NewType("Foo", datetime.timedelta))
         True
     """
-    return builtins.issubclass(origin(obj), datetime.timedelta)
+    return _safe_issubclass(origin(obj), datetime.timedelta)
 
 
 @compat.cache
@@ -694,7 +694,7 @@ def isdecimaltype(obj: type) -> compat.TypeIs[type[decimal.Decimal]]:
         >>> isdecimaltype(NewType("Foo", decimal.Decimal))
         True
     """
-    return builtins.issubclass(origin(obj), decimal.Decimal)
+    return _safe_issubclass(origin(obj), decimal.Decimal)
 
 
 @compat.cache
@@ -709,7 +709,7 @@ def isfractiontype(obj: type) -> compat.TypeIs[type[fractions.Fraction]]:
         >>> isdecimaltype(NewType("Foo", fractions.Fraction))
         True
     """
-    return builtins.issubclass(origin(obj), fractions.Fraction)
+    return _safe_issubclass(origin(obj), fractions.Fraction)
 
 
 @compat.cache
@@ -728,7 +728,7 @@ def isuuidtype(obj: type) -> compat.TypeIs[type[uuid.UUID]]:
         >>> isuuidtype(NewType("Foo", uuid.UUID))
         True
     """
-    return builtins.issubclass(origin(obj), uuid.UUID)
+    return _safe_issubclass(origin(obj), uuid.UUID)
 
 
 @compat.cache
@@ -749,7 +749,7 @@ def isiterabletype(obj: type) -> compat.TypeIs[type[tp.Iterable]]:
         False
     """
     obj = origin(obj)
-    return builtins.issubclass(obj, tp.Iterable)
+    return _safe_issubclass(obj, tp.Iterable)
 
 
 @compat.cache
@@ -769,7 +769,7 @@ def isiteratortype(obj: type) -> compat.TypeIs[type[tp.Iterator]]:
         False
     """
     obj = origin(obj)
-    return builtins.issubclass(obj, tp.Iterator)
+    return _safe_issubclass(obj, tp.Iterator)
 
 
 @compat.cache
@@ -791,7 +791,7 @@ def istupletype(
         True
     """
     obj = origin(obj)
-    return obj is tuple or issubclass(obj, tuple)  # type: ignore[arg-type]
+    return obj is tuple or _safe_issubclass(obj, tuple)  # type: ignore[arg-type]
 
 
 @compat.cache
@@ -816,7 +816,7 @@ def issequencetype(obj: type) -> compat.TypeIs[type[tp.Collection]]:
         False
     """
     obj = origin(obj)
-    return obj in _COLLECTIONS or builtins.issubclass(obj, tp.Sequence)
+    return obj in _COLLECTIONS or _safe_issubclass(obj, tp.Sequence)
 
 
 @compat.cache
@@ -841,7 +841,7 @@ def iscollectiontype(obj: type) -> compat.TypeIs[type[tp.Collection]]:
         False
     """
     obj = origin(obj)
-    return obj in _COLLECTIONS or builtins.issubclass(obj, tp.Collection)
+    return obj in _COLLECTIONS or _safe_issubclass(obj, tp.Collection)
 
 
 _COLLECTIONS = {list, set, tuple, frozenset, dict, str, bytes}
@@ -896,7 +896,7 @@ def ismappingtype(obj: type) -> compat.TypeIs[type[tp.Mapping]]:
         True
     """
     obj = origin(obj)
-    return builtins.issubclass(obj, _MAPPING_TYPES) or builtins.issubclass(
+    return _safe_issubclass(obj, _MAPPING_TYPES) or _safe_issubclass(
         obj, tp.Mapping
     )
 
@@ -1413,7 +1413,8 @@ def isunresolvable(t: tp.Any) -> bool:
         >>> isunresolvable(...)
         True
     """
-    return t in _UNRESOLVABLE
+    # A parameterised callable (`Callable[[int], str]`) is as opaque as a bare one.
+    return t in _UNRESOLVABLE or tp.get_origin(t) is abc_Callable
 
 
 _UNRESOLVABLE = (
